@@ -89,6 +89,12 @@ def execute(sc, sched):
                   'nothing can run but %d poster(s) have not returned (capacity %s): %s' % (len(stuck), sc['queue_size'], where(sim)))
     elif sim.thread_errors:
       common.thread_error_violations(sim, res)
+    elif o is not None and o.locking_deque.deque.real_len() != 0:
+      # quiescence means: every poster finished and the consumer waits on an EMPTY queue
+      ctl = o.thread._ctl if o.thread is not None else None
+      res.violate('quiescent-with-pending-events', {'consumer': (ctl.desc.split(':')[0] if ctl is not None and ctl.state != kernel.DONE else 'dead')},
+                  'every poster has returned and nothing can run, but %d event(s) are still pending (tokens: %d); threads: %s' % (
+                    o.locking_deque.deque.real_len(), o.locking_deque.locking_queue._qsize(), where(sim)))
     # reach
     ev_order = []
     open_posts = set()
